@@ -14,7 +14,7 @@ def run(ctx):
     if root and (b := the_body(ctx, root, r"kernel_drop_node$")):
         g = G_any([
             G_cmp(r"call:.*SystemService::get_object_info$", r"call:" + ACTOR + "instance_context$", "outer"),
-            G_cmp(r"call:.*SystemService::get_object_info$", r"call:" + ACTOR + "blueprint_id$", "blueprint"),
+            G_cmp(r"call:.*SystemService::get_object_info$", r"call:" + ACTOR + "blueprint_id$", "blueprint", callee=r"BlueprintId\b"),
         ], "actor outer-object == object's outer object OR actor blueprint == object's blueprint")
         check_guarded(ctx, "drop_object|actor-identity", b, call_blocks(b, r"kernel_drop_node$"), [g], "kernel_drop_node in drop_object")
         bp_consts = sorted(c for bb in ctx.bodies_of(root) for c in bb.fn.consts if c.endswith("_BLUEPRINT"))
@@ -34,7 +34,8 @@ def run(ctx):
         targets = call_blocks(b, r"kernel_create_node_from$") + call_blocks(b, r"kernel_set_substate$")
         check_guarded(ctx, "globalize|access", b, targets, [
             G_cmp(r"call:.*IndexedScryptoValue::as_typed$", r"call:" + ACTOR + "package_address$", "reserved package == actor package"),
-            G_cmp(r"call:.*SystemService::get_object_info$", r"call:.*IndexedScryptoValue::as_typed$", "object blueprint == reserved blueprint"),
+            G_cmp(r"call:.*SystemService::get_object_info$", r"call:.*IndexedScryptoValue::as_typed$", "object blueprint == reserved blueprint (full BlueprintId)",
+                  callee=r"BlueprintId\b"),
             G_enum(r"::TypeInfoSubstate$", ["GlobalAddressReservation"], lambda a: a.kind == "call" and a.what.endswith("and_then")),
             G_bool_call(r"ObjectInfo::is_global$", False),
         ], "global node creation", min_targets=2)
